@@ -186,18 +186,7 @@ def run (ctx):
     ctx.ob('R-ONCE', disc, "ConnectionDown is raised under a test-and-set (`%s`)" % d.text(50), good, "guarded by not disconnection_raised, flag set first" if good else
            "ConnectionDown is not protected by the disconnection_raised test-and-set: a second disconnect/close raises it again (facts %s)" % fs, (mod, d.ast), 'D4')
     ctx.ob('R-DOM', disc, "ConnectionDown only for announced connections (dpid known)", any('self.dpid is not None' in f for f in fs), "under dpid is not None", (mod, d.ast), 'D4')
-  STATES = [  # (already disconnected?, already raised?, defer?) -> must ConnectionDown be raised by this call
-    (False, False, False, True), (False, False, True, False), (True, False, False, True), (True, True, False, False), (False, True, False, False)]
-  for was, raised, defer, want in STATES:
-    env = q.Env({'self.disconnected': was, 'self.disconnection_raised': raised, 'defer_event': defer,
-                 'self.dpid is None': False, 'self.dpid is not None': True})
-    r = q.reach_under(repo, mod, g, env, con, exc=True)
-    got = bool(dn) and all(d in r for d in dn)
-    anyd = any(d in r for d in dn)
-    good = got if want else not anyd
-    ctx.ob('R-ONCE', disc, "disconnect with disconnected=%s raised=%s defer_event=%s -> ConnectionDown %s" % (was, raised, defer, 'raised' if want else 'not raised'), good,
-           "as required" if good else ("ConnectionDown is unreachable in this state: a loss first noticed with the event deferred (failing send) is never announced - "
-           "listeners keep a dead connection" if want else "ConnectionDown reachable although it must not be raised (again)"), disc, 'D4')
+  disconnect_states(ctx, repo, mod, con, disc, dn, 'D4')
   reg_rm = g.nodes_with_call(lambda c: call_name(c) == '_disconnect')
   ctx.ob('R-EFFECT', disc, "every disconnect withdraws the connection from the registry", bool(reg_rm) and g.postdominates(reg_rm, g.entry), "_disconnect on every path", disc, 'D5')
   for n in reg_rm:
@@ -345,3 +334,19 @@ def run (ctx):
   for f in (fin, disc, cl, cn, dc):
     for nm, node in defs.undefined_names(repo, f):
       ctx.bad('R-DEF', f, "undefined name `%s`" % nm, "NameError on this path", (f.module, node), 'D6')
+
+def disconnect_states (ctx, repo, mod, con, disc, dn, clause):
+  g = q.cfg_of(disc)
+  STATES = [  # (already disconnected?, already raised?, defer?) -> must ConnectionDown be raised by this call
+    (False, False, False, True), (False, False, True, False), (True, False, False, True), (True, True, False, False), (False, True, False, False)]
+  for was, raised, defer, want in STATES:
+    env = q.Env({'self.disconnected': was, 'self.disconnection_raised': raised, 'defer_event': defer,
+                 'self.dpid is None': False, 'self.dpid is not None': True})
+    r = q.reach_under(repo, mod, g, env, con, exc=True)
+    got = bool(dn) and all(d in r for d in dn)
+    anyd = any(d in r for d in dn)
+    good = got if want else not anyd
+    ctx.ob('R-ONCE', disc, "disconnect with disconnected=%s raised=%s defer_event=%s -> ConnectionDown %s" % (was, raised, defer, 'raised' if want else 'not raised'), good,
+           "as required" if good else ("ConnectionDown is unreachable in this state: a loss first noticed with the event deferred (failing send) is never announced - "
+           "listeners keep a dead connection" if want else "ConnectionDown reachable although it must not be raised (again)"), disc, clause)
+
